@@ -345,7 +345,7 @@ class Ctx:
             return
         if key in [v['key'] for v in self.violations]:
             return
-        if len(self.violations) < 5:
+        if len(self.violations) < 400:
             self.violations.append({'key': key, 'what': what, 'case': case})
 
     def obligation_failed(self, name: str, detail: str = '') -> None:
